@@ -28,8 +28,8 @@ ASSUMPTIONS = [
     "group_by as a persistent mark is not a transition (count() exercises grouping on a copy)",
 ]
 BOUND = {
-    "quick": "7 initial frames; full menu (about 40-95 operations per state incl. converters, subsetting, sort, 5 joins, rbind/cbind/update, modify, select/rename, in-place set/del/pop/popitem/colnames, re-assignment of deleted names); depth 2; caps 4 columns / 6 rows",
-    "thorough": "same menu, depth 3 (in-place sub-alphabet depth 4)",
+    "quick": "7 initial frames; depth 2 over the full menu plus depth 3 along the hidden-state sub-alphabet (in-place edits, observe-and-discard calls, cell pokes) ending in any operation; full menu (about 40-95 operations per state incl. converters, subsetting, sort, 5 joins, rbind/cbind/update, modify, select/rename, in-place set/del/pop/popitem/colnames, re-assignment of deleted names); depth 2; caps 4 columns / 6 rows",
+    "thorough": "same menu, depth 3 (hidden-state sub-alphabet depth 4)",
 }
 TIME_CAP = {"quick": 300, "thorough": 3300}
 CLAUSES = {"C01"}
@@ -46,8 +46,10 @@ def shards(tier):
         d, M, seen = dfbfs.build_init(init)
         for op in dfbfs.menu(M, seen):
             out.append({"init": init, "prefix": [op], "depth": depth_of(tier) - 1})
-            if tier != "quick" and op["op"] in dfbfs.INPLACE:
-                out.append({"init": init, "prefix": [op], "depth": 3, "inplace_only": True})
+            if op["op"] in dfbfs.INPLACE:
+                # one level deeper along the sub-alphabet that leaves hidden state on the object
+                # (in-place edits, observations, cell pokes); the last step is again any operation
+                out.append({"init": init, "prefix": [op], "depth": depth_of(tier), "hidden_then_any": True})
     return out
 
 
@@ -58,7 +60,8 @@ def run_shard(shard, rec):
         dfbfs.explore(init, [], 1, rec, CLAUSES)
         rec.sample({"init": dfbfs.INITS[init], "history": []})
         return
-    filt = (lambda op: op["op"] in dfbfs.INPLACE) if shard.get("inplace_only") else None
+    last = shard["depth"] - 1
+    filt = (lambda level, op: level == last or op["op"] in dfbfs.INPLACE) if shard.get("hidden_then_any") else None
     dfbfs.explore(init, prefix, shard["depth"], rec, CLAUSES, op_filter=filt)
     rec.sample({"init": dfbfs.INITS[init], "history": prefix})
 
